@@ -83,6 +83,13 @@ pub struct Case {
     /// 3 = two groups
     #[serde(default)]
     pub job_reply_shape: u8,
+    /// the document is a file literally named `-` in the working directory of the command (`-f -`); standard input
+    /// then carries different bytes
+    #[serde(default)]
+    pub dash_file: bool,
+    /// the successful Print-Job reply carries an unsupported-attributes group that names this many of the given options
+    #[serde(default)]
+    pub unsupported_echo: u8,
 }
 
 #[derive(Clone, Copy)]
@@ -151,7 +158,7 @@ fn gpa_ipp(rng_tok: u32, r: &PrinterReply) -> Vec<u8> {
     refcodec::encode(&m).bytes
 }
 
-fn job_ipp(r: &JobReply, shape: u8) -> Vec<u8> {
+fn job_ipp(r: &JobReply, shape: u8, unsupported: &[String]) -> Vec<u8> {
     let op = vec![text_attr("attributes-charset", 0x47, b"utf-8"), text_attr("attributes-natural-language", 0x48, b"en")];
     let ja = vec![int_attr("job-id", 0x21, 42), text_attr("job-uri", 0x45, b"ipp://127.0.0.1/jobs/42"), int_attr("job-state", 0x23, 3)];
     let mut groups = vec![WGroup { tag: 0x01, attrs: op }];
@@ -163,6 +170,12 @@ fn job_ipp(r: &JobReply, shape: u8) -> Vec<u8> {
             groups.push(WGroup { tag: 0x02, attrs: vec![text_attr("job-state-reasons", 0x44, b"none")] });
         }
         _ => groups.push(WGroup { tag: 0x02, attrs: ja }),
+    }
+    if !unsupported.is_empty() {
+        // RFC 8011 4.1.7: a printer lists what it ignored in an unsupported-attributes group; the status stays successful
+        let mut seen = std::collections::BTreeSet::new();
+        let attrs = unsupported.iter().filter(|k| seen.insert((*k).clone())).map(|k| WAttr { name: k.as_bytes().to_vec(), values: vec![WVal::Scalar { tag: 0x10, body: vec![] }] }).collect();
+        groups.insert(1, WGroup { tag: 0x05, attrs });
     }
     let m = WMsg { version: 0x0101, op: r.ipp_status, reqid: 1, groups };
     refcodec::encode(&m).bytes
@@ -225,11 +238,13 @@ impl Prop for C18 {
             } else {
                 format!("x{}", gen_ascii(rng, 8))
             };
-            let value: String = match rng.below(9) {
+            let value: String = match rng.below(10) {
                 0 => "true".into(),
                 1 => "false".into(),
                 2 => (*rng.pick(&["0", "1", "-1", "007", "2147483647", "-2147483648", "42", "-0"])).to_string(),
                 3 => (*rng.pick(&["2147483648", "-2147483649", "99999999999", "1e3", "0x10", "1.5", " 5", "5 ", "", "True", "FALSE", "--1"])).to_string(),
+                // text that looks like some other IPP syntax is still a keyword
+                8 => (*rng.pick(&["600dpi", "300x300dpi", "100dpcm", "1200x600dpi", "1-5", "1,2,3", "2024-01-01", "12:30", "yes", "no", "on", "off", "null", "none", "3..7", "iso_a4_210x297mm", "na_letter_8.5x11in", "50%", "#1", "1_000"])).to_string(),
                 4 => format!("{}", rng.next() as i32),
                 5 => format!("{}={}", gen_ascii(rng, 4), gen_ascii(rng, 4)),
                 6 => "a=b=c".into(),
@@ -311,6 +326,8 @@ impl Prop for C18 {
             gpa_cut: if rng.chance(1, 12) { Some(rng.below(200) as u32) } else { None },
             job_cut: if rng.chance(1, 12) { Some(rng.below(200) as u32) } else { None },
             job_reply_shape: *rng.pick(&[0u8, 0, 0, 1, 2, 3]),
+            dash_file: rng.chance(1, 25),
+            unsupported_echo: if rng.chance(1, 6) { rng.range(1, 3) as u8 } else { 0 },
         }
     }
 
@@ -323,7 +340,7 @@ impl Prop for C18 {
         }
         let mut scripts: BTreeMap<u32, Script> = BTreeMap::new();
         scripts.insert(0x000b, Script { status: case.gpa.http_status, framing: case.gpa.framing.clone(), ipp: gpa_ipp(7, &case.gpa), trailing: vec![], segments: case.gpa.segments.clone(), fault: None, reset_request_after: None, drip_ms: 0 });
-        scripts.insert(0x0002, Script { status: case.job.http_status, framing: case.job.framing.clone(), ipp: job_ipp(&case.job, case.job_reply_shape), trailing: vec![], segments: case.job.segments.clone(), fault: None, reset_request_after: None, drip_ms: 0 });
+        scripts.insert(0x0002, Script { status: case.job.http_status, framing: case.job.framing.clone(), ipp: job_ipp(&case.job, case.job_reply_shape, &case.options.iter().take(case.unsupported_echo as usize).map(|(k, _)| k.clone()).filter(|k| !k.is_empty()).collect::<Vec<_>>()), trailing: vec![], segments: case.job.segments.clone(), fault: None, reset_request_after: None, drip_ms: 0 });
         if let Some(k) = case.gpa_cut {
             let sc = scripts.get_mut(&0x000b).unwrap();
             let k = k.min(sc.ipp.len() as u32 - 1);
@@ -356,10 +373,22 @@ impl Prop for C18 {
         }
         let mut file_path = None;
         let mut link_path: Option<PathBuf> = None;
+        let mut cwd_dir: Option<PathBuf> = None;
         if !case.via_stdin {
-            let p = dir.join(format!("doc-{}.bin", FILE_SEQ.fetch_add(1, Ordering::SeqCst)));
+            let p = if case.dash_file {
+                // its own directory, used as the working directory of the command
+                let d = dir.join(format!("cwd-{}", FILE_SEQ.fetch_add(1, Ordering::SeqCst)));
+                let _ = std::fs::create_dir_all(&d);
+                cmd.current_dir(&d);
+                cwd_dir = Some(d.clone());
+                d.join("-")
+            } else {
+                dir.join(format!("doc-{}.bin", FILE_SEQ.fetch_add(1, Ordering::SeqCst)))
+            };
             std::fs::write(&p, &case.document).expect("write document");
-            if case.via_symlink {
+            if case.dash_file {
+                cmd.arg("-f").arg("-");
+            } else if case.via_symlink {
                 let l = dir.join(format!("link-{}.bin", FILE_SEQ.fetch_add(1, Ordering::SeqCst)));
                 let _ = std::fs::remove_file(&l);
                 std::os::unix::fs::symlink(&p, &l).expect("symlink");
@@ -380,7 +409,7 @@ impl Prop for C18 {
             cmd.arg("-o").arg(format!("{k}={v}"));
         }
         cmd.arg(&uri);
-        cmd.stdin(if case.via_stdin { Stdio::piped() } else { Stdio::null() }).stdout(Stdio::null()).stderr(Stdio::piped());
+        cmd.stdin(if case.via_stdin || (case.dash_file && !case.via_stdin) { Stdio::piped() } else { Stdio::null() }).stdout(Stdio::null()).stderr(Stdio::piped());
         cmd.env_remove("LD_PRELOAD");
         let mut child = match cmd.spawn() {
             Ok(c) => c,
@@ -389,6 +418,13 @@ impl Prop for C18 {
                 return rep;
             }
         };
+        if case.dash_file && !case.via_stdin {
+            if let Some(mut si) = child.stdin.take() {
+                std::thread::spawn(move || {
+                    let _ = si.write_all(b"THIS IS STANDARD INPUT, NOT THE FILE NAMED DASH");
+                });
+            }
+        }
         if case.via_stdin {
             let mut si = child.stdin.take().unwrap();
             let doc = case.document.clone();
@@ -422,6 +458,13 @@ impl Prop for C18 {
         }
         if let Some(p) = link_path {
             let _ = std::fs::remove_file(p);
+        }
+        if let Some(d) = cwd_dir {
+            let _ = std::fs::remove_dir_all(d);
+            rep.count("document_is_a_file_named_dash", 1);
+        }
+        if case.unsupported_echo > 0 && !case.options.is_empty() {
+            rep.count("print_job_reply_lists_given_options_as_unsupported", 1);
         }
         if case.via_symlink && !case.via_stdin {
             rep.count("document_via_symlink", 1);
@@ -611,6 +654,12 @@ impl Prop for C18 {
         if c.via_symlink {
             out.push(Case { via_symlink: false, ..c.clone() });
         }
+        if c.dash_file {
+            out.push(Case { dash_file: false, ..c.clone() });
+        }
+        if c.unsupported_echo > 0 {
+            out.push(Case { unsupported_echo: 0, ..c.clone() });
+        }
         if c.job_reply_shape != 0 {
             out.push(Case { job_reply_shape: 0, ..c.clone() });
         }
@@ -635,7 +684,7 @@ impl Prop for C18 {
     }
 
     fn rule(&self) -> String {
-        "Each run starts the real ipputil binary (built from /repo, hooks off) as a child process with a seeded command line — document from a file or stdin (0 B to 2 MiB of arbitrary bytes), optional -j / -u, 0-6 -o key=value options with values of every textual class (true/false, decimal i32 incl. range edges and leading zeros, out-of-range and non-decimal look-alikes, text containing '='; duplicate keys, last wins), -n on/off, 0-3 -H headers — against the scripted printer on loopback: reply to Get-Printer-Attributes (HTTP status, IPP status, printer-state absent/idle/processing/stopped/unregistered/wrong syntax, printer-state-reasons absent / single keyword / set with a blocking keyword at any position / informational only) and reply to Print-Job (HTTP status, IPP status; job-attributes part with three attributes / an empty group / no group / two groups), each under a seeded framing and segmentation, and in 1 of 12 runs each cut by the printer inside its attributes (a failed exchange); 1 of 8 file runs passes the document through a symbolic link; option keys are mostly private names, sometimes names that mean something elsewhere in a message (job-id, printer-uri, attributes-charset, copies ...). Oracle = reference model of the command: expected request history (query first unless -n; no Print-Job when the query fails, the status is unsuccessful, the printer is stopped or a blocking reason is present; otherwise exactly one Print-Job to the canonical printer-uri with job-name / requesting-user-name as name values, job attributes typed by their text compared through the reference decoder, document bytes identical) and exit status (0 iff every exchange was HTTP 200 with a successful IPP status). Cells the statement leaves open (unregistered state value, wrong state syntax) accept either behaviour. distinct_nontrivial = distinct (command line, printer script, history, exit) hashes."
+        "Each run starts the real ipputil binary (built from /repo, hooks off) as a child process with a seeded command line — document from a file or stdin (0 B to 2 MiB of arbitrary bytes), optional -j / -u, 0-6 -o key=value options with values of every textual class (true/false, decimal i32 incl. range edges and leading zeros, out-of-range and non-decimal look-alikes, text containing '='; duplicate keys, last wins), -n on/off, 0-3 -H headers — against the scripted printer on loopback: reply to Get-Printer-Attributes (HTTP status, IPP status, printer-state absent/idle/processing/stopped/unregistered/wrong syntax, printer-state-reasons absent / single keyword / set with a blocking keyword at any position / informational only) and reply to Print-Job (HTTP status, IPP status; job-attributes part with three attributes / an empty group / no group / two groups), each under a seeded framing and segmentation, and in 1 of 12 runs each cut by the printer inside its attributes (a failed exchange); 1 of 8 file runs passes the document through a symbolic link, 1 of 25 names it `-` in the command's working directory (with different bytes on standard input); 1 of 6 successful Print-Job replies lists some of the given options in an unsupported-attributes group; option values include text that looks like other IPP syntaxes (600dpi, 1-5, 2024-01-01, yes/no ...); option keys are mostly private names, sometimes names that mean something elsewhere in a message (job-id, printer-uri, attributes-charset, copies ...). Oracle = reference model of the command: expected request history (query first unless -n; no Print-Job when the query fails, the status is unsuccessful, the printer is stopped or a blocking reason is present; otherwise exactly one Print-Job to the canonical printer-uri with job-name / requesting-user-name as name values, job attributes typed by their text compared through the reference decoder, document bytes identical) and exit status (0 iff every exchange was HTTP 200 with a successful IPP status). Cells the statement leaves open (unregistered state value, wrong state syntax) accept either behaviour. distinct_nontrivial = distinct (command line, printer script, history, exit) hashes."
             .into()
     }
     fn assumptions(&self) -> Vec<String> {
